@@ -32,4 +32,19 @@ def dawsonLargeC (exp : Rat → Rat) (c : Nat → Rat) (x : Rat) : Rat :=
 /-- a call history of a function, answered call by call (what the harness observes) -/
 def history {α β} (f : α → β) (calls : List α) : List β := calls.map f
 
+/-- a one-entry cache in front of a function: the stored answer is returned when the stored key is
+    `near` the argument, otherwise the function is evaluated and the entry replaced (the shape of
+    every "remember the last evaluation" optimisation) -/
+def cachedStep {α β} (near : α → α → Bool) (f : α → β) (st : Option (α × β)) (x : α) : Option (α × β) × β :=
+  match st with
+  | some (k, v) => if near k x then (st, v) else (some (x, f x), f x)
+  | none => (some (x, f x), f x)
+
+def cachedHistory {α β} (near : α → α → Bool) (f : α → β) : Option (α × β) → List α → List β
+  | _, [] => []
+  | st, x :: r => (cachedStep near f st x).2 :: cachedHistory near f (cachedStep near f st x).1 r
+
+/-- the cache entry is consistent: it holds the function value of its key -/
+def CacheOK {α β} (f : α → β) (st : Option (α × β)) : Prop := ∀ k v, st = some (k, v) → v = f k
+
 end Lp.C17
